@@ -312,6 +312,8 @@ class TrashWorld(object):
                     self.nodes.append({"p": pp + "/sub/lnk", "t": "l", "to": link_to})
             elif kind.startswith("link"):
                 self.nodes.append({"p": pp, "t": "l", "to": link_to})
+            elif kind == "fifo":     # a special file as payload (what `trash-put my.fifo` leaves)
+                self.nodes.append({"p": pp, "t": "p", "m": 0o640})
         e = dict(tdir=tdir, name=name, orig=orig, date=date, info=ip, payload=pp if payload else None,
                  kind=kind, base=base)
         self.entries.append(e)
